@@ -234,4 +234,34 @@ theorem dfsLoop_total (d : Dawg) (wf : WF d) (rank : Nat → Nat) (D : Nat) (hr 
                 simp only
                 omega
 
+theorem listNodes_total (d : Dawg) (wf : WF d) (rank : Nat → Nat) (D : Nat) (hr : Ranked d rank D) :
+    ∃ L, listNodes (Qp D (rank d.root + 1)) d = .ok L := by
+  obtain ⟨rn, hrn⟩ := wf.closed d.root Reach.root
+  have hsp : SP d.heap rank D [(d.root, 0)] ≤ Qp D (rank d.root + 1) := by
+    rw [SP_cons, SP_nil]
+    have : deg d.heap d.root ≤ D := by simp only [deg, hrn]; exact hr.deg d.root rn Reach.root hrn
+    have := Pot_le_Qp D (rank d.root) (deg d.heap d.root - 0) (by omega)
+    simp only at this ⊢
+    omega
+  obtain ⟨r, hres⟩ := dfsLoop_total d wf rank D hr none (Qp D (rank d.root + 1))
+    { nodes := [rn.id], stack := [(d.root, 0)], out := #[] }
+    (by intro e he; simp at he; subst he; exact Reach.root) (by simp) hsp
+  exact ⟨r.nodes, by simp only [listNodes, getNode_of_some hrn, hres]⟩
+
+theorem gobEncode_total (d : Dawg) (wf : WF d) (rank : Nat → Nat) (D : Nat) (hr : Ranked d rank D) :
+    ∃ bs, gobEncode (Qp D (rank d.root + 1)) d = .ok bs := by
+  obtain ⟨rn, hrn⟩ := wf.closed d.root Reach.root
+  obtain ⟨L, hL⟩ := listNodes_total d wf rank D hr
+  obtain ⟨rr, hrr⟩ := encRecord_ok d wf (searchGE L) Reach.root hrn
+  have hsp : SP d.heap rank D [(d.root, 0)] ≤ Qp D (rank d.root + 1) := by
+    rw [SP_cons, SP_nil]
+    have : deg d.heap d.root ≤ D := by simp only [deg, hrn]; exact hr.deg d.root rn Reach.root hrn
+    have := Pot_le_Qp D (rank d.root) (deg d.heap d.root - 0) (by omega)
+    simp only at this ⊢
+    omega
+  obtain ⟨r, hres⟩ := dfsLoop_total d wf rank D hr (some (searchGE L)) (Qp D (rank d.root + 1))
+    ⟨List.replicate L.length 0, [(d.root, 0)], (encodeUint64 L.length ++ List.flatMap encodeUint64 L ++ rr).toArray⟩
+    (by intro e he; simp at he; subst he; exact Reach.root) (by simp) hsp
+  exact ⟨r.out.toList, by simp only [gobEncode, hL, getNode_of_some hrn, hrr, hres]⟩
+
 end Dawg
